@@ -5,7 +5,7 @@ from .printer import COMMON
 GROUP = {
     'name': 'PrinterMul',
     'imports': ['Cellml.Tie.PrinterView'],
-    'header': 'open C11',
+    'header': 'open Cellml.Tie.PPrinter\nopen C11',
     'patterns': COMMON,
     'functions': [
         {'file': 'cellmlmanip/printer.py', 'func': 'Printer._print_Mul', 'lean_name': 'mulClassify',
